@@ -260,6 +260,7 @@ int detect_alignment_format(struct in_buffer*b,int* type)
 
         //char line[BUFFER_LEN];
         int hints[3];
+        int first_hint = -1;
         int line_len;
         int line_number;
         int set;
@@ -310,6 +311,18 @@ int detect_alignment_format(struct in_buffer*b,int* type)
                 if(strstr(line, "MSF:")){
                         hints[1]++;
                 }
+                /* the first line that looks like the start of a file of some format decides:
+                   a FASTA description, a sequence name or a line of residues further down
+                   may well contain "CLUSTAL W" or "MSF:" */
+                if(first_hint == -1){
+                        if(line[0] == '>'){
+                                first_hint = 0;
+                        }else if(strstr(line, "multiple sequence alignment") || strstr(line, "CLUSTAL W") || strstr(line, "CLUSTAL O")){
+                                first_hint = 2;
+                        }else if(strstr(line, "!!AA_MULTIPLE_ALIGNMENT") || strstr(line, "!!NA_MULTIPLE_ALIGNMENT") || strstr(line, "MSF:")){
+                                first_hint = 1;
+                        }
+                }
                 line_number++;
                 if(line_number == 100){
                         break;
@@ -333,13 +346,13 @@ int detect_alignment_format(struct in_buffer*b,int* type)
                 *type = FORMAT_DETECT_FAIL;
                 //ERROR_MSG("Input format could not be unambiguously detected");
         }
-        if(hints[0]){
+        if(first_hint == 0){
                 *type = FORMAT_FA;
         }
-        if(hints[1]){
+        if(first_hint == 1){
                 *type = FORMAT_MSF;
         }
-        if(hints[2]){
+        if(first_hint == 2){
                 *type = FORMAT_CLU;
         }
         //fprintf(stdout,"fa: %d msf:%d clu:%d", hints[0],hints[1],hints[2]);
